@@ -83,7 +83,7 @@ def concat(ropes):
 
 REPLAY_HEAD = '''# replay of a counterexample found by /verif (property C05/C19) on the real rpyc
 import sys, struct, zlib
-sys.path.insert(0, "/repo")
+sys.path.insert(0, __import__("os").environ.get("VERIF_REPO", "/repo"))
 from rpyc.core.channel import Channel
 from rpyc.core.stream import SocketStream, PipeStream
 class Rec(object):
